@@ -385,7 +385,9 @@ func (ef *Filter) filterField(ctx context.Context, v reflect.Value, filterOverri
 		var taggedInterface Taggable
 		var isTaggable bool
 		// check exported fields to see if they implement the Taggable interface
-		if field.CanSet() {
+		// (a map is a reference: a taggable map can be filtered even when the
+		// field that holds it, e.g. an interface value, is not settable)
+		if field.CanSet() || fkind == reflect.Map {
 			taggedInterface, isTaggable = v.Field(i).Interface().(Taggable)
 		}
 
